@@ -619,10 +619,55 @@ func runUnorderedSpellings(c *engine.Ctx) {
 	}
 }
 
+// runWideBoundaries: 64-bit types around the values where a comparison in floating point (or in the
+// other signedness) goes wrong: 2^53, -2^53, the ends of int64 and of uint64.  A typedef range that
+// ends at the pivot and leaf restrictions made of the pivot and its neighbours in every arrangement.
+func runWideBoundaries(c *engine.Ctx) {
+	type pv struct{ base, pivot string }
+	for _, p := range []pv{{"int64", "9007199254740992"}, {"int64", "-9007199254740992"}, {"int64", "9223372036854775806"}, {"int64", "-9223372036854775807"},
+		{"uint64", "9007199254740992"}, {"uint64", "9223372036854775807"}, {"uint64", "18446744073709551614"}, {"uint64", "4294967296"}, {"int64", "4294967296"}, {"int64", "-2147483649"}} {
+		v, _ := new(big.Int).SetString(p.pivot, 10)
+		at := func(k int64) string { return new(big.Int).Add(v, big.NewInt(k)).String() }
+		r0s := []string{"", "0.." + at(0), "0.." + at(-1)}
+		if v.Sign() < 0 {
+			r0s = []string{"", at(0) + "..0", at(1) + "..0"}
+		}
+		leafs := []string{at(-1), at(0), at(1), at(-1) + ".." + at(0), at(0) + ".." + at(1), at(-1) + ".." + at(1), at(1) + ".." + at(0), at(0) + ".." + at(-1),
+			at(-1) + " | " + at(0), at(0) + " | " + at(1), at(-2) + ".." + at(-1) + " | " + at(0) + ".." + at(1), at(0) + " | " + at(0), at(0) + " | " + at(-1), at(-2) + ".." + at(0) + " | " + at(0) + ".." + at(1),
+			at(-1) + ".." + at(0) + " | " + at(1), at(-3) + " | " + at(-1)}
+		for _, r0 := range r0s {
+			for _, d := range leafs {
+				for _, where := range []int{0, 1} {
+					if where == 0 && r0 != "" {
+						continue
+					}
+					ch := chain{Base: p.base, Levels: []level{{Restr: r0}, {Restr: d}}}
+					if where == 0 {
+						ch = chain{Base: p.base, Levels: []level{{Restr: d}, {}}}
+					}
+					id := "wide:" + ch.yang()
+					if !c.Owns(id) || !c.Case(id) {
+						continue
+					}
+					c.Add("states", 1)
+					c.Add("transitions", 2)
+					c.Nontrivial()
+					vs, outcome := check(ch)
+					c.Outcome("wide:" + outcome)
+					for _, v := range vs {
+						c.Report(v)
+					}
+				}
+			}
+		}
+	}
+}
+
 func run(c *engine.Ctx) {
 	runFamilies(c)
 	runMinMaxSpellings(c)
 	runUnorderedSpellings(c)
+	runWideBoundaries(c)
 	runDefaultChains(c)
 	bases := []string{"int8", "uint8", "int64", "uint64", "decimal64/1", "decimal64/2", "decimal64/18", "string"}
 	nTypedefs := 2
